@@ -15,7 +15,12 @@ M = {}
 
 def model(*names):
     def deco(f):
-        for n in names: M[n] = f
+        for n in names:
+            M[n] = f
+            if not n.startswith('re:') and n.startswith('core::'):
+                M['std::' + n[6:]] = f; M['alloc::' + n[6:]] = f
+            if not n.startswith('re:') and n.startswith('char::methods::'):
+                M['core::' + n] = f; M['std::' + n] = f
         return f
     return deco
 
@@ -431,7 +436,7 @@ def _box_new(I, ctx, v): return v
 @model('re:^<(Rc|Arc|Box|std::rc::Rc|std::sync::Arc)<.*> as (Deref|DerefMut|AsRef<.*>|Borrow<.*>)>::(deref|deref_mut|as_ref|borrow)$')
 def _box_deref(I, ctx, r):
     return r if isinstance(deref1(r), Ref) is False and isinstance(r, Ref) else r
-@model('re:^core::slice::<impl \\[.*\\]>::get$', 're:^core::slice::<impl \\[.*\\]>::get_mut$')
+@model('re:^(?:core|std|alloc)::slice::<impl \\[.*\\]>::get$', 're:^(?:core|std|alloc)::slice::<impl \\[.*\\]>::get_mut$')
 def _slice_get(I, ctx, r, idx):
     l, lo, hi = seq_view(r)
     n = hi - lo
@@ -441,32 +446,32 @@ def _slice_get(I, ctx, r, idx):
         i = ctx.concretize(idx)
         return SOME(ElemRef(l, lo + i))
     return NONE()
-@model('re:^core::slice::<impl \\[.*\\]>::len$')
+@model('re:^(?:core|std|alloc)::slice::<impl \\[.*\\]>::len$')
 def _(I, ctx, r): return BV(seq_len(r), 64)
-@model('re:^core::slice::<impl \\[.*\\]>::is_empty$')
+@model('re:^(?:core|std|alloc)::slice::<impl \\[.*\\]>::is_empty$')
 def _(I, ctx, r): return seq_len(r) == 0
-@model('re:^core::slice::<impl \\[.*\\]>::(first|first_mut)$')
+@model('re:^(?:core|std|alloc)::slice::<impl \\[.*\\]>::(first|first_mut)$')
 def _(I, ctx, r):
     l, lo, hi = seq_view(r)
     return SOME(ElemRef(l, lo)) if hi > lo else NONE()
-@model('re:^core::slice::<impl \\[.*\\]>::(last|last_mut)$')
+@model('re:^(?:core|std|alloc)::slice::<impl \\[.*\\]>::(last|last_mut)$')
 def _(I, ctx, r):
     l, lo, hi = seq_view(r)
     return SOME(ElemRef(l, hi - 1)) if hi > lo else NONE()
-@model('re:^core::slice::<impl \\[.*\\]>::(iter|iter_mut)$')
+@model('re:^(?:core|std|alloc)::slice::<impl \\[.*\\]>::(iter|iter_mut)$')
 def _slice_iter(I, ctx, r):
     l, lo, hi = seq_view(r)
     return ListIt([ElemRef(l, k) for k in range(lo, hi)])
-@model('re:^core::slice::<impl \\[.*\\]>::to_vec$', 're:^<\\[.*\\] as ToOwned>::to_owned$', 're:^core::slice::<impl \\[.*\\]>::into_vec$',
+@model('re:^(?:core|std|alloc)::slice::<impl \\[.*\\]>::to_vec$', 're:^<\\[.*\\] as ToOwned>::to_owned$', 're:^(?:core|std|alloc)::slice::<impl \\[.*\\]>::into_vec$',
        're:^<Vec<.*> as From<&\\[.*\\]>>::from$', 're:^<Vec<.*> as From<\\[.*\\]>>::from$', 're:^<Vec<.*> as From<&\\[.*; \\d+\\]>>::from$')
 def _to_vec(I, ctx, r): return VecV([copy_value(x) for x in seq_items(r)])
-@model('re:^core::slice::<impl \\[.*\\]>::contains$')
+@model('re:^(?:core|std|alloc)::slice::<impl \\[.*\\]>::contains$')
 def _(I, ctx, r, x):
     x = deref(x)
     for y in seq_items(r):
         if ctx.branch(values_eq(I, ctx, x, y)): return True
     return False
-@model('re:^core::slice::<impl \\[.*\\]>::(starts_with)$')
+@model('re:^(?:core|std|alloc)::slice::<impl \\[.*\\]>::(starts_with)$')
 def _(I, ctx, r, p):
     a, b = seq_items(r), seq_items(p)
     if len(b) > len(a): return False
@@ -553,10 +558,11 @@ def _(I, ctx, r, s): deref(r).items.extend(copy_value(x) for x in seq_items(s));
 @model('re:^<Vec<.*> as Extend<.*>>::extend$')
 def _(I, ctx, r, it):
     v = deref(r); it = to_iter(I, ctx, it)
+    byref = bool(re.search(r'Extend<&', ctx.cur_raw))
     while True:
         o = it_next(I, ctx, it)
         if o.variant == 'None': return UNIT
-        v.items.append(o.fields[0])
+        v.items.append(copy_value(deref(o.fields[0])) if byref else o.fields[0])
 @model('re:^<.* as IntoIterator>::into_iter$')
 def _into_iter(I, ctx, it):
     return to_iter(I, ctx, it)
@@ -784,20 +790,20 @@ def _(I, ctx, a, b):
     if a.conc() and b.conc(): return b if (b.sval() if b.signed else b.e) >= (a.sval() if a.signed else a.e) else a
     lt = (b.z() < a.z()) if a.signed else z3.ULT(b.z(), a.z())
     return a if ctx.branch(lt) else b
-@model('re:^core::num::<impl (usize|u32|u64|u8)>::saturating_sub$')
+@model('re:^(?:core|std)::num::<impl (usize|u32|u64|u8)>::saturating_sub$')
 def _(I, ctx, a, b):
     if a.conc() and b.conc(): return BV(max(0, a.e - b.e), a.bits)
     return BV(z3.If(z3.ULT(a.z(), b.z()), z3.BitVecVal(0, a.bits), a.z() - b.z()), a.bits)
-@model('re:^core::num::<impl (usize|u32|u64|u8|i32|i64)>::checked_(add|sub|mul)$')
+@model('re:^(?:core|std)::num::<impl (usize|u32|u64|u8|i32|i64)>::checked_(add|sub|mul)$')
 def _(I, ctx, a, b):
     op = {'add': 'AddWithOverflow', 'sub': 'SubWithOverflow', 'mul': 'MulWithOverflow'}[ctx.cur_key.rsplit('_', 1)[1]]
     r = I.binop(ctx, op, a, b)
     return NONE() if ctx.branch(r.fields[1]) else SOME(r.fields[0])
-@model('re:^core::num::<impl (usize|u32|u64|u8|i32|i64)>::wrapping_(add|sub|mul)$')
+@model('re:^(?:core|std)::num::<impl (usize|u32|u64|u8|i32|i64)>::wrapping_(add|sub|mul)$')
 def _(I, ctx, a, b):
     op = {'add': 'Add', 'sub': 'Sub', 'mul': 'Mul'}[ctx.cur_key.rsplit('_', 1)[1]]
     return I.binop(ctx, op, a, b)
-@model('re:^core::num::<impl (u64|u32|usize)>::checked_pow$')
+@model('re:^(?:core|std)::num::<impl (u64|u32|usize)>::checked_pow$')
 def _(I, ctx, a, e):
     n = ctx.concretize(e)
     acc = BV(1, a.bits)
@@ -886,7 +892,7 @@ def _(I, ctx, it):
         if o.variant == 'None': break
         out.append(o.fields[0])
     tgt = raw[raw.rindex('collect::<') + 10:-1] if 'collect::<' in raw else ''
-    if tgt.startswith('Vec<') or tgt.startswith('std::vec::Vec<'): return VecV(out)
+    if tgt.startswith(('Vec<', 'std::vec::Vec<', 'VecDeque<', 'std::collections::VecDeque<')): return VecV(out)
     if tgt.startswith(('String', 'std::string::String')):
         b = []
         for c in out: b.extend(utf8_encode(ctx, deref(c)))
@@ -928,19 +934,28 @@ def _(I, ctx, r):
     return ValRef(v)
 @model('re:^<.* as (std::borrow::)?ToOwned>::to_owned$')
 def _(I, ctx, r): return clone_value(deref(r))
-@model('re:^<(u8|u16|u32|u64|usize|i32|i64|char|bool) as Clone>::clone$')
+@model('re:^<(u8|u16|u32|u64|u128|usize|i8|i16|i32|i64|i128|isize|char|bool) as Clone>::clone$')
 def _(I, ctx, r): return deref(r)
-@model('re:^<(u8|u16|u32|u64|usize|i32|i64|char|bool) as PartialEq>::(eq|ne)$')
+@model('re:^<(u8|u16|u32|u64|u128|usize|i8|i16|i32|i64|i128|isize|char|bool) as PartialEq>::(eq|ne)$')
 def _(I, ctx, a, b):
     r = values_eq(I, ctx, a, b); return b_not(r) if ctx.cur_key.endswith('ne') else r
-@model('re:^<(u8|u16|u32|u64|usize|i32|i64|char) as (Partial)?Ord>::(partial_)?cmp$')
+@model('re:^<(u8|u16|u32|u64|u128|usize|i8|i16|i32|i64|i128|isize|char) as (Partial)?Ord>::(partial_)?cmp$')
 def _(I, ctx, a, b):
     r = I.binop(ctx, 'Cmp', deref(a), deref(b))
     return SOME(r) if 'partial_cmp' in ctx.cur_key else r
-@model('re:^(std::cell::)?(RefCell|Cell|std::sync::Mutex|parking_lot::RwLock|parking_lot::Mutex|RwLock|Mutex)::new$')
+@model('re:^([\\w:]+::)?(RefCell|Cell|RwLock|Mutex)::new$')
 def _(I, ctx, v): return Agg('CellLike', [v])
-@model('re:^(std::cell::)?RefCell::(borrow|borrow_mut)$', 're:^([\\w:]+::)?(RwLock|Mutex)::(read|write|lock|upgradable_read)$')
+@model('re:^(std::cell::)?RefCell::(borrow|borrow_mut)$', 're:^(?!std::sync::)([\\w:]+::)?(RwLock|Mutex)::(read|write|lock|upgradable_read)$')
 def _(I, ctx, r): return FieldRef(deref(r), 0)
+@model('re:^std::sync::(RwLock|Mutex)::(read|write|lock)$')
+def _(I, ctx, r): return OK(FieldRef(deref(r), 0))
+@model('re:^(std::sync::)?LazyLock::new$', 're:^(std::sync::)?OnceLock::new$', 're:^(std::cell::)?(LazyCell|OnceCell)::new$')
+def _(I, ctx, *f): return Agg('Lazy', [f[0] if f else None, None])
+@model('re:^<(std::sync::)?LazyLock<.*> as Deref>::deref$', 're:^(std::sync::)?LazyLock::force$', 're:^<(std::cell::)?LazyCell<.*> as Deref>::deref$')
+def _(I, ctx, r):
+    l = deref(r)
+    if l.fields[1] is None: l.fields[1] = ValRef(I.call_value(ctx, ctx.cur_crate, l.fields[0], []))
+    return l.fields[1]
 @model('re:^<(std::cell::)?(Ref|RefMut)<.*> as Deref(Mut)?>::deref(_mut)?$', 're:^<([\\w:]+::)?(RwLockReadGuard|RwLockWriteGuard|MutexGuard|RwLockUpgradableReadGuard|MappedRwLockReadGuard)<.*> as Deref(Mut)?>::deref(_mut)?$')
 def _(I, ctx, r): return deref1(r)
 @model('re:^(std::cell::)?Cell::get$')
